@@ -1,6 +1,6 @@
 from __future__ import annotations
 from .classes import Tape, Stack
-from .errors import tert, vert, sert
+from .errors import tert, vert, sert, ScriptExecutionError
 from .interfaces import CanCheckTransfer, CanBeInvoked, ScriptProtocol
 from hashlib import sha256
 from math import ceil, floor, isnan, log2
@@ -2167,7 +2167,10 @@ def run_tape(
             op = opcodes[op_code][1]
         else:
             op = nopcodes[op_code][1]
-        op(tape, stack, cache)
+        try:
+            op(tape, stack, cache)
+        except RecursionError:
+            raise ScriptExecutionError('maximum nesting depth exceeded') from None
 
 def run_script(
         script: bytes|ScriptProtocol, cache_vals: dict = {},
